@@ -1095,7 +1095,10 @@ class MultiTestResult(TestResult):
     def __init__(self, *results):
         # Setup _results first, as the base class __init__ assigns to failfast.
         self._results = list(map(ExtendedToOriginalDecorator, results))
-        super().__init__()
+        # The base class assigns its failfast argument to self.failfast, which
+        # is dispatched to every wrapped result: hand it what they already
+        # have, so that a result created with failfast=True keeps it.
+        super().__init__(failfast=self._get_failfast())
 
     def __repr__(self):
         return "<{} ({})>".format(
@@ -1108,7 +1111,7 @@ class MultiTestResult(TestResult):
         )
 
     def _get_failfast(self):
-        return getattr(self._results[0], "failfast", False)
+        return any(getattr(result, "failfast", False) for result in self._results)
 
     def _set_failfast(self, value):
         self._dispatch("__setattr__", "failfast", value)
